@@ -329,3 +329,7 @@ def run(f, fixture, rep, cfg, tier):
     calls = [c.decl for c in cb.calls()]
     rep.check(errs == {"InvalidCapabilities"} and any(x.endswith("FromStr::from_str") or "FileCaps" in x for x in calls), "K", "caps|error-mapping",
               "caps() validates through FileCaps and maps failure to Err(InvalidCapabilities)", "caps() error exits are %s, calls %s" % (sorted(map(str, errs)), calls[:5]), cb.span)
+
+    # ---- K2: what counts as an unknown capability is decided by C19's tables -------------------------------------
+    rep.rule("K2", "unknown capability text is an error (C19.R5 tables and scan)")
+    rep.include("c19", f, fixture, cfg, tier, "K2", "capability text validation", only_rules={"R5"}, floor=5)
